@@ -372,7 +372,7 @@ def _parse_class_body(decl, tokens):
         if v == ";":
             p.i += 1
             continue
-        if v in OPEN:
+        if v == "{":
             p.balanced()
             continue
         # constructor: Name ( ... ) [: base(...)] { ... }   |   Name ( ... ) [: ...] => expr ;
